@@ -18,16 +18,29 @@ Definition junction_ok (st : lstate) (c : N) : bool :=
     known to be the generator's "last push"), [mg] whether [merge_char] may follow. *)
 Definition item_ok (T : tables) (k : cfg) (prev : bytes) (mg : bool) (it : item) : bool :=
   let st := snd k in
-  match imode it, itext it with
-  | MStr, c :: _ =>
-    clean st && (junction_ok st c || match last_opt prev with Some l => sp T l c | None => false end)
-  | MBreak p, c :: _ => clean st && (junction_ok st c || pred_holds T p prev)
-  | MNlRaw _, c :: _ => clean st && junction_ok st c
-  | MRaw, c :: _ => negb (clean st) || junction_ok st c
-  | MRaw, [] => true
-  | MMerge, [40] => clean st && mg
-  | MSpace, _ => true
-  | _, _ => false
+  match imode it with
+  | MStr =>
+    match itext it with
+    | c :: _ => clean st && (junction_ok st c || match last_opt prev with Some l => sp T l c | None => false end)
+    | [] => false
+    end
+  | MBreak p =>
+    match itext it with
+    | c :: _ => clean st && (junction_ok st c || pred_holds T p prev)
+    | [] => false
+    end
+  | MNlRaw _ =>
+    match itext it with
+    | c :: _ => clean st && junction_ok st c
+    | [] => false
+    end
+  | MRaw =>
+    match itext it with
+    | c :: _ => negb (clean st) || junction_ok st c
+    | [] => true
+    end
+  | MMerge => bytes_eqb (itext it) [40] && clean st && mg
+  | MSpace => true
   end.
 
 Definition next_prev (it : item) : bytes :=
@@ -52,3 +65,133 @@ Fixpoint stream_ok_from (T : tables) (k : cfg) (prev : bytes) (mg : bool) (items
   end.
 
 Definition stream_ok (T : tables) (items : list item) : bool := stream_ok_from T cfg0 [] false items.
+
+(** * [spacing_ok T]: the finite condition on the tables
+
+    Lexer states are grouped in classes (the pending token's text does not matter, only what
+    kind of token is pending): [reps] lists one representative per class of clean, pending
+    state. *)
+Definition rep (st : lstate) : lstate :=
+  match st with
+  | LName _ => LName []
+  | LNum ph _ => LNum ph []
+  | _ => st
+  end.
+
+Definition pending_syms : list psym :=
+  [PDot; PDot2; PEq; PLt; PGt; PMinus; PSlash; PSlash2; PColon; PLBracket; PPlus; PStar; PPercent; PCaret].
+
+Definition reps : list lstate :=
+  [LName []; LNum NHead []; LNum NExpSign []; LNum NTail []] ++ map LSym pending_syms.
+
+(** [l] can be the last byte of a push that leaves a token pending in state [st].  For numbers
+    this is narrower than what the lexer allows: the generators never end a number with ".",
+    "_" or an exponent sign (Rust's float formatting ends with a digit; hexadecimal and binary
+    numbers end with a digit or a letter). *)
+Definition consistent (st : lstate) (l : N) : bool :=
+  match st with
+  | LStart => true
+  | LName _ => is_ident_char l
+  | LNum NHead _ => is_digit l
+  | LNum NExpSign _ => (l =? 101) || (l =? 69)
+  | LNum NTail _ => is_ident_char l
+  | LSym p => match last_opt (psym_text p) with Some x => l =? x | None => false end
+  | _ => false
+  end.
+
+(** [f] can be the first byte of a push that leaves a token pending in state [st]: a push that
+    ends inside a number is a number (dense.rs pushes numbers alone) *)
+Definition first_consistent (st : lstate) (f : N) : bool :=
+  match st with
+  | LNum _ _ => is_digit f
+  | _ => true
+  end.
+
+(** the first byte of the texts pushed with each predicate *)
+Definition pred_char (p : pred) : N :=
+  match p with
+  | BConcat => 46 | BVarargs => 46 | BMinus => 45 | BEqual => 61 | BLongString => 91
+  end.
+
+(** ADJACENCY UNIVERSE.  Pairs (pending token class, first byte of the next push) that the
+    grammar never makes adjacent in the generators' output and that the tables do not
+    separate; a push list containing one is outside the theorem.
+    - after a number that ends right after its exponent letter ("1e"): nothing (dense.rs
+      writes the exponent digits in the same push);
+    - after an operator symbol that "=" could extend ("=", "<", "+", "-", "*", "/", "//", "%",
+      "^", "..", "[" ): no push starting with "=" (an expression never starts with "=");
+    - after "/": no push starting with "/"; after ":": no push starting with ":";
+      after "-": no push starting with ">"  (no expression or type starts with these). *)
+Definition excluded_str (st : lstate) (c : N) : bool :=
+  match st with
+  | LNum NExpSign _ => true
+  | LSym p =>
+    match p with
+    | PEq | PLt | PPlus | PStar | PPercent | PCaret | PSlash2 | PDot2 | PLBracket => c =? 61
+    | PMinus => (c =? 61) || (c =? 62)
+    | PSlash => (c =? 61) || (c =? 47)
+    | PColon => c =? 58
+    | _ => false
+    end
+  | _ => false
+  end.
+
+Definition excluded_brk (st : lstate) (p : pred) : bool := excluded_str st (pred_char p).
+
+Definition range128 : list N := map N.of_nat (seq 0 128).
+
+Definition spacing_ok_str (T : tables) : bool :=
+  forallb (fun K => forallb (fun l => forallb (fun c =>
+    implb (consistent K l && negb (excluded_str K c)) (junction_ok K c || sp T l c))
+    range128) range128) reps.
+
+Definition all_preds : list pred := [BConcat; BVarargs; BMinus; BEqual; BLongString].
+
+Definition spacing_ok_brk (T : tables) : bool :=
+  forallb (fun p => forallb (fun K => forallb (fun l =>
+    implb (consistent K l && negb (excluded_brk K p))
+          (junction_ok K (pred_char p)
+           || forallb (fun f => implb (first_consistent K f) (br T p f l)) range128))
+    range128) reps) all_preds.
+
+Definition spacing_ok (T : tables) : bool := spacing_ok_str T && spacing_ok_brk T.
+
+(** * [adjacency_ok items]: the push list stays inside the adjacency universe (no table) *)
+Definition is_start (st : lstate) : bool := match st with LStart => true | _ => false end.
+
+Definition adj_ok (k : cfg) (prev : bytes) (mg : bool) (it : item) : bool :=
+  let st := snd k in
+  match imode it with
+  | MStr =>
+    match itext it with
+    | c :: _ =>
+      clean st && (is_start st ||
+        match last_opt prev with
+        | Some l => consistent st l && (l <? 128) && (c <? 128) && negb (excluded_str st c)
+        | None => false
+        end)
+    | [] => false
+    end
+  | MBreak p =>
+    match itext it with
+    | c :: _ =>
+      (c =? pred_char p) && clean st && (is_start st ||
+        match prev, last_opt prev with
+        | f :: _, Some l => consistent st l && first_consistent st f && (l <? 128) && (f <? 128)
+                            && negb (excluded_brk st p)
+        | _, _ => false
+        end)
+    | [] => false
+    end
+  | _ => item_ok {| sp := fun _ _ => false; br := fun _ _ _ => false |} k prev mg it
+  end.
+
+Fixpoint adjacency_ok_from (k : cfg) (prev : bytes) (mg : bool) (items : list item) : bool :=
+  match items with
+  | [] => true
+  | it :: rest =>
+    adj_ok k prev mg it
+    && adjacency_ok_from (snd (run k (canon_item it))) (next_prev it) (next_mg k it) rest
+  end.
+
+Definition adjacency_ok (items : list item) : bool := adjacency_ok_from cfg0 [] false items.
